@@ -44,6 +44,17 @@ type Exec struct {
 	finalCells    map[ssa.Value]Value
 	remembered    map[string]bool
 	retEdge       string
+	// path replay of return regions (see planSplits)
+	splitJoin map[*ssa.BasicBlock]bool
+	inRegion  map[*ssa.BasicBlock]bool
+	splitIn   map[*ssa.BasicBlock]*splitEdges
+	retMode   int  // 0 normal, 1 merged run inside a split region (postconditions deferred), 2 path replay
+	quiet     bool // path replay: no obligations except those of the return
+	allowObl  bool
+	pathNo    int
+	replaySE  *splitEdges
+	replayH0  int
+	replayQ0  int
 	nWF           int // number of hypotheses before the function's own requires were assumed
 	extraRequires []*SExpr
 	noReturnOK    bool
@@ -53,6 +64,15 @@ type retPoint struct {
 	st    *State
 	vals  []Value
 	nhyps int
+	hyps  []*Term // path replay: explicit hypothesis set (instead of hyps[:nhyps])
+}
+
+type splitEdges struct {
+	edges []*State
+	preds []*ssa.BasicBlock
+	nhyps int // hypotheses known when the split block was reached
+	nq    int
+	narr  int // array bases whose layout facts are among those hypotheses
 }
 
 type loopInfo struct {
@@ -94,6 +114,9 @@ func (e *Exec) addObl(kind, label, clause string, props []string, st *State, goa
 	if e.specMode {
 		return nil
 	}
+	if r := e.root(); r.quiet && !r.allowObl {
+		return nil
+	}
 	if goal.IsTrue() || st.pc.IsFalse() {
 		// trivially discharged; still counted so that vacuity floors see it
 		e.ctx.seq++
@@ -104,6 +127,12 @@ func (e *Exec) addObl(kind, label, clause string, props []string, st *State, goa
 	}
 	e.ctx.seq++
 	o := &Obligation{Name: e.oblName(kind, label), Kind: kind, Props: props, Clause: clause, Goal: goal, PC: st.pc, NHyps: len(e.ctx.hyps), NQ: len(e.ctx.qhyps), Seq: e.ctx.seq, Fn: e.topName}
+	if r := e.root(); r.replaySE != nil {
+		// path replay: what was known at the split point plus this path's own assumptions
+		o.HypsX = append(append([]*Term{}, e.ctx.hyps[:r.replaySE.nhyps]...), e.ctx.hyps[r.replayH0:]...)
+		o.QHypsX = append(append([]*QHyp{}, e.ctx.qhyps[:r.replaySE.nq]...), e.ctx.qhyps[r.replayQ0:]...)
+		o.NQ = len(o.QHypsX)
+	}
 	_, o.Pos = e.srcLine(pos)
 	e.ctx.obls = append(e.ctx.obls, o)
 	return o
@@ -250,12 +279,16 @@ func (e *Exec) run(st *State, inlineArgs []Value) *retPoint {
 		e.errorf("function %s has no body", fn)
 	}
 	e.analyzeLoops()
+	e.planSplits()
 	e.outEdges = map[*ssa.BasicBlock][]*State{}
 	e.blockIn = map[*ssa.BasicBlock]*State{}
 	for _, b := range e.rpo {
 		var in *State
 		if b == fn.Blocks[0] {
 			in = st
+			if e.splitJoin[b] {
+				e.splitIn[b] = &splitEdges{edges: []*State{st.clone()}, preds: []*ssa.BasicBlock{nil}, nhyps: len(e.ctx.hyps), nq: len(e.ctx.qhyps), narr: len(e.arrBases)}
+			}
 		} else {
 			var edges []*State
 			var preds []*ssa.BasicBlock
@@ -279,11 +312,25 @@ func (e *Exec) run(st *State, inlineArgs []Value) *retPoint {
 			}
 			// a block that only returns: check the postconditions per incoming edge, with the
 			// unmerged state of that edge (smaller terms, one path family per obligation)
-			if e.parent == nil && len(edges) > 1 && e.headers[b] == nil && onlyReturns(b) {
+			if e.splitJoin[b] {
+				se := &splitEdges{nhyps: len(e.ctx.hyps), nq: len(e.ctx.qhyps), narr: len(e.arrBases)}
+				for k := range edges {
+					se.edges = append(se.edges, edges[k].clone())
+					se.preds = append(se.preds, preds[k])
+				}
+				e.splitIn[b] = se
+			}
+			fromRegion := false
+			for _, p := range preds {
+				if e.inRegion[p] {
+					fromRegion = true
+				}
+			}
+			if e.parent == nil && (len(edges) > 1 || fromRegion) && e.headers[b] == nil && onlyReturns(b) && !e.inRegion[b] {
 				e.outEdges[b] = nil
 				for k := range edges {
-					if edges[k].pc.IsFalse() {
-						continue
+					if edges[k].pc.IsFalse() || e.inRegion[preds[k]] {
+						continue // paths through a split region are checked by replaySplits
 					}
 					for _, ins := range b.Instrs {
 						phi, ok := ins.(*ssa.Phi)
@@ -306,6 +353,7 @@ func (e *Exec) run(st *State, inlineArgs []Value) *retPoint {
 		e.blockIn[b] = in
 		e.execBlock(b, in)
 	}
+	e.replaySplits()
 	if inlineArgs == nil && e.parent == nil {
 		return nil
 	}
@@ -321,11 +369,16 @@ func (e *Exec) run(st *State, inlineArgs []Value) *retPoint {
 	}
 	merged := e.ctx.mergeStates(sts)
 	var vals []Value
+	var retPCs []*Term
+	for _, r := range e.rets {
+		retPCs = append(retPCs, r.st.pc)
+	}
+	retSel := relConds(retPCs)
 	n := len(e.rets[0].vals)
 	for i := 0; i < n; i++ {
 		v := e.rets[len(e.rets)-1].vals[i]
 		for j := len(e.rets) - 2; j >= 0; j-- {
-			v = e.iteValue(e.rets[j].st.pc, e.rets[j].vals[i], v)
+			v = e.iteValue(retSel[j], e.rets[j].vals[i], v)
 		}
 		vals = append(vals, v)
 	}
@@ -361,6 +414,19 @@ func (e *Exec) mergeInto(b *ssa.BasicBlock, edges []*State, preds []*ssa.BasicBl
 func (e *Exec) phiValue(phi *ssa.Phi, b *ssa.BasicBlock, edges []*State, preds []*ssa.BasicBlock) Value {
 	var v Value
 	first := true
+	// selectors: the path conditions of the live edges without their shared conjuncts
+	var livePCs []*Term
+	var liveIdx []int
+	for k := range edges {
+		if !edges[k].pc.IsFalse() {
+			livePCs = append(livePCs, edges[k].pc)
+			liveIdx = append(liveIdx, k)
+		}
+	}
+	sel := map[int]*Term{}
+	for i, r := range relConds(livePCs) {
+		sel[liveIdx[i]] = r
+	}
 	for k := len(edges) - 1; k >= 0; k-- {
 		if edges[k].pc.IsFalse() {
 			continue
@@ -393,7 +459,7 @@ func (e *Exec) phiValue(phi *ssa.Phi, b *ssa.BasicBlock, edges []*State, preds [
 			v = ev
 			first = false
 		} else {
-			v = e.iteValue(edges[k].pc, ev, v)
+			v = e.iteValue(sel[k], ev, v)
 		}
 	}
 	if first {
@@ -597,7 +663,7 @@ func (e *Exec) enterLoop(li *loopInfo, in *State) *State {
 	}
 	// ghost counters may change in the loop
 	li.held = map[string]*Term{}
-	for k := range st.ghost {
+	for _, k := range sortedKeys(st.ghost) {
 		if strings.HasPrefix(k, "held:") {
 			li.held[k] = st.ghost[k] // lock state is loop-invariant (checked at the back edge)
 			continue
@@ -662,7 +728,8 @@ func (e *Exec) closeLoop(li *loopInfo, from *ssa.BasicBlock, st *State) {
 	for k, cl := range ls.Invariants {
 		e.invObligations(env, cl, k, li, "step", st, from.Instrs[len(from.Instrs)-1].Pos())
 	}
-	for k, v := range st.ghost {
+	for _, k := range sortedKeys(st.ghost) {
+		v := st.ghost[k]
 		if strings.HasPrefix(k, "held:") {
 			h0, ok := li.held[k]
 			if !ok {
@@ -774,9 +841,25 @@ func (e *Exec) doReturn(r *ssa.Return, st *State) {
 		e.rets = append(e.rets, retPoint{st: st, vals: vals})
 		return
 	}
-	e.rets = append(e.rets, retPoint{st: st, vals: vals, nhyps: len(e.ctx.hyps)})
+	if e.retMode != 2 {
+		e.rets = append(e.rets, retPoint{st: st, vals: vals, nhyps: len(e.ctx.hyps)})
+	} else if e.replaySE != nil {
+		hx := append(append([]*Term{}, e.ctx.hyps[:e.replaySE.nhyps]...), e.ctx.hyps[e.replayH0:]...)
+		e.rets = append(e.rets, retPoint{st: st, vals: vals, hyps: hx})
+	}
 	if e.fc == nil {
 		return
+	}
+	if e.retMode == 0 && e.inRegion[r.Block()] {
+		// merged run through a split region: the conditions at this return are checked
+		// path by path afterwards (replaySplits)
+		return
+	}
+	if e.retMode == 2 {
+		e.pathNo++
+		e.retEdge = fmt.Sprintf(".p%d", e.pathNo)
+		e.allowObl = true
+		defer func() { e.allowObl = false; e.retEdge = "" }()
 	}
 	// ghost updates take effect at the return, simultaneously
 	if len(e.fc.Ghosts) > 0 {
@@ -818,7 +901,8 @@ func (e *Exec) doReturn(r *ssa.Return, st *State) {
 			e.addObl("post", label, text, e.fc.clauseProps(cl), st, g, r.Pos())
 		}
 	}
-	for k, v := range st.ghost {
+	for _, k := range sortedKeys(st.ghost) {
+		v := st.ghost[k]
 		if strings.HasPrefix(k, "held:") {
 			e.addObl("lock", "released"+e.retSuffix(r), "every mutex taken by the function is released when it returns", e.fc.Props, st, Eq(v, ConstI(0, I64)), r.Pos())
 		}
@@ -1206,4 +1290,187 @@ func onlyReturns(b *ssa.BasicBlock) bool {
 		}
 	}
 	return true
+}
+
+// planSplits picks join blocks from which every path runs to a return without loops and
+// without other entries. The blocks of such a region are executed merged as usual (safety
+// and call obligations are generated once), but what must hold at its returns is checked
+// path by path: each path is re-executed on its own from the join's incoming edges, which
+// keeps every postcondition query to one path's terms.
+func (e *Exec) planSplits() {
+	e.splitJoin = map[*ssa.BasicBlock]bool{}
+	e.inRegion = map[*ssa.BasicBlock]bool{}
+	e.splitIn = map[*ssa.BasicBlock]*splitEdges{}
+	if e.parent != nil || e.fc == nil || e.specMode {
+		return
+	}
+	inLoop := map[*ssa.BasicBlock]bool{}
+	for _, li := range e.headers {
+		for b := range li.blocks {
+			inLoop[b] = true
+		}
+	}
+	inRPO := map[*ssa.BasicBlock]bool{}
+	for _, b := range e.rpo {
+		inRPO[b] = true
+	}
+	npreds := func(b *ssa.BasicBlock) int {
+		np := 0
+		for _, p := range b.Preds {
+			if inRPO[p] {
+				for _, s := range p.Succs {
+					if s == b {
+						np++
+					}
+				}
+			}
+		}
+		return np
+	}
+	for _, b := range e.rpo {
+		if e.inRegion[b] || inLoop[b] || onlyReturns(b) {
+			continue
+		}
+		// region reachable from b; blocks that only return are its exits, not members
+		region := map[*ssa.BasicBlock]bool{}
+		var order []*ssa.BasicBlock
+		ok, hasRet, joins := true, false, 0
+		var walk func(x *ssa.BasicBlock)
+		walk = func(x *ssa.BasicBlock) {
+			if region[x] {
+				return
+			}
+			if x != b && onlyReturns(x) {
+				hasRet = true
+				if npreds(x) > 1 {
+					joins++
+				}
+				return
+			}
+			region[x] = true
+			order = append(order, x)
+			if inLoop[x] || e.inRegion[x] {
+				ok = false
+			}
+			for _, s := range x.Succs {
+				walk(s)
+			}
+		}
+		walk(b)
+		for _, x := range order {
+			if x != b {
+				if npreds(x) > 1 {
+					joins++
+				}
+				for _, p := range x.Preds {
+					if inRPO[p] && !region[p] {
+						ok = false
+					}
+				}
+			}
+			if len(x.Instrs) > 0 {
+				if _, isRet := x.Instrs[len(x.Instrs)-1].(*ssa.Return); isRet {
+					hasRet = true
+				}
+			}
+		}
+		if !ok || !hasRet || joins == 0 {
+			continue
+		}
+		memo := map[*ssa.BasicBlock]int{}
+		var paths func(x *ssa.BasicBlock) int
+		paths = func(x *ssa.BasicBlock) int {
+			if n, done := memo[x]; done {
+				return n
+			}
+			n := 0
+			if len(x.Succs) == 0 {
+				n = 1
+			}
+			for _, s := range x.Succs {
+				n += paths(s)
+				if n > 1000 {
+					n = 1000
+				}
+			}
+			memo[x] = n
+			return n
+		}
+		np := npreds(b)
+		if np < 1 {
+			np = 1
+		}
+		if paths(b)*np > 64 {
+			continue
+		}
+		e.splitJoin[b] = true
+		for x := range region {
+			e.inRegion[x] = true
+		}
+	}
+}
+
+// replaySplits re-executes every split region once per path (see planSplits). Only the
+// obligations of the returns are emitted; labels get the suffix .p<path number>.
+func (e *Exec) replaySplits() {
+	if len(e.splitIn) == 0 {
+		return
+	}
+	root := e.root()
+	saveCounts := map[string]int{}
+	for k, v := range root.counts {
+		saveCounts[k] = v
+	}
+	saveOrd := map[string]int{}
+	for k, v := range root.callOrd {
+		saveOrd[k] = v
+	}
+	e.quiet, e.retMode = true, 2
+	for _, b := range e.rpo {
+		se := e.splitIn[b]
+		if se == nil {
+			continue
+		}
+		for k := range se.edges {
+			if se.edges[k].pc.IsFalse() {
+				continue
+			}
+			saveDef := e.defSeen
+			e.defSeen = map[ssa.Value]bool{}
+			e.replaySE, e.replayH0, e.replayQ0 = se, len(e.ctx.hyps), len(e.ctx.qhyps)
+			// layout facts of array fields first met after the split point are stated again on
+			// this path (the ones stated during the merged run are not among its hypotheses)
+			saveArr := e.arrBases
+			e.arrBases = e.arrBases[:se.narr:se.narr]
+			e.replayPath(b, se.edges[k].clone(), se.preds[k])
+			// the path's own assumptions are visible to its obligations only
+			e.ctx.hyps = e.ctx.hyps[:e.replayH0]
+			e.ctx.qhyps = e.ctx.qhyps[:e.replayQ0]
+			e.replaySE = nil
+			e.arrBases = saveArr
+			e.defSeen = saveDef
+		}
+	}
+	e.quiet, e.retMode = false, 0
+	root.counts = saveCounts
+	root.callOrd = saveOrd
+}
+
+func (e *Exec) replayPath(b *ssa.BasicBlock, st *State, pred *ssa.BasicBlock) {
+	for _, ins := range b.Instrs {
+		phi, ok := ins.(*ssa.Phi)
+		if !ok || pred == nil {
+			break
+		}
+		e.vals[phi] = e.phiValue(phi, b, []*State{st}, []*ssa.BasicBlock{pred})
+	}
+	e.execBlock(b, st)
+	outs := e.outEdges[b]
+	delete(e.outEdges, b)
+	for si, s := range b.Succs {
+		if si >= len(outs) || outs[si] == nil || outs[si].pc.IsFalse() {
+			continue
+		}
+		e.replayPath(s, outs[si], b)
+	}
 }
